@@ -219,3 +219,13 @@ Proof. rewrite delivered_is_accepted. apply at_most_once_any_bitmap. Qed.
 (* a frame that does not open changes nothing *)
 Lemma failed_open_no_change s q : unseal_step s (q, false) = (s, false).
 Proof. reflexivity. Qed.
+
+(* failed key-setup attempts interleaved anywhere change nothing *)
+Lemma delivered_ops_frames : forall l s, delivered_ops s l = delivered s (frames_of l).
+Proof.
+  induction l as [|o t IH]; intros s; [reflexivity|]. destruct o as [f|]; cbn [delivered_ops frames_of flat_map app delivered].
+  - fold (frames_of t). destruct (unseal_step s f) as [s' b]. destruct b; rewrite IH; reflexivity.
+  - apply IH.
+Qed.
+Theorem delivered_ops_at_most_once b0 l : NoDup (delivered_ops {| hi := 0; bm := b0 |} l).
+Proof. rewrite delivered_ops_frames. apply delivered_at_most_once. Qed.
